@@ -17,7 +17,8 @@ from pynetdicom import evt
 class FakeSock:
     """socket.socket stand-in: recv(k) returns the next min(k, chunk) bytes; b'' at EOF."""
 
-    def __init__(self, stream, chunks, fail_at=None):
+    def __init__(self, stream, chunks, fail_at=None, delay=0.0):
+        self.delay = delay
         self.stream, self.pos = bytes(stream), 0
         self.chunks = itertools.cycle(chunks) if chunks else itertools.repeat(1 << 30)
         self.calls = []
@@ -31,19 +32,26 @@ class FakeSock:
             raise OSError("connection reset")
         if k == 0:
             return b""
+        if self.delay and self.pos < len(self.stream):
+            import time
+            time.sleep(self.delay)        # a gap between segments, shorter than the network timeout
         j = max(1, min(k, next(self.chunks)))
         out = self.stream[self.pos:self.pos + j]
         self.pos += len(out)
         return out
 
 
+NETWORK_TIMEOUT = 0.2
+
+
 def real_recv(sock, n):
-    holder = types.SimpleNamespace(socket=sock)
+    assoc = types.SimpleNamespace(network_timeout=NETWORK_TIMEOUT, acse_timeout=30, dimse_timeout=30)
+    holder = types.SimpleNamespace(socket=sock, assoc=assoc, _assoc=assoc)
     return AssociationSocket.recv(holder, n)
 
 
-def check_recv(stream, pos0, n, chunks):
-    sock = FakeSock(stream, chunks)
+def check_recv(stream, pos0, n, chunks, delay=0.0):
+    sock = FakeSock(stream, chunks, delay=delay)
     sock.pos = pos0
     try:
         got = bytes(real_recv(sock, n))
@@ -164,6 +172,12 @@ def main():
                     break
             if bad:
                 break
+        if not bad:
+            # segments separated by gaps below the network timeout whose SUM exceeds it
+            bad = check_recv(bytes(range(1, 9)), 0, 8, [1], delay=NETWORK_TIMEOUT * 0.4)
+            if bad:
+                bad["input"]["inter_chunk_delay_s"] = NETWORK_TIMEOUT * 0.4
+                bad["input"]["network_timeout_s"] = NETWORK_TIMEOUT
     else:
         seqs = [[A_RELEASE_RQ], [A_RELEASE_RQ, A_ABORT], [P_DATA, A_RELEASE_RQ, A_RELEASE_RP], [A_RJ, P_DATA, P_DATA],
                 [b"\x09\x00\x00\x00\x00\x02", A_RELEASE_RQ], [b"\x00" * 6 + A_ABORT]]
